@@ -411,6 +411,9 @@ def single_edits(schema, rng, per_rule_cap=6):
 
     def field(mg, name, typ, **kw):
         mg.fields.append(S.Field(name, 64010 + len(mg.fields), typ, **kw))
+        # an explicit blockLength of the message would no longer cover the appended field (thorough tier, rnd2_11: an
+        # empty message with blockLength="0" -- every accepted twin was rejected for that reason, a harness error)
+        mg.block_length = None
 
     if schema.messages:
         # constant field of a primitive/type: valueRef must exist, name an enum, name one of its values, and fit the field type
